@@ -50,6 +50,8 @@ pub enum FaultKind {
     /// layout deviations for this one answer
     Drop(usize),
     AddForeign,
+    /// a foreign signal inserted at this position
+    InsertForeign(usize),
     Dup(usize),
     Swap(usize, usize),
     SubstName(usize),
@@ -139,7 +141,7 @@ impl DutModel {
         for (fi, f) in spec.faults.iter().enumerate() {
             let base = |p: usize| spec.layout.get(p).map(|(s, _)| s.clone());
             let made = match &f.kind {
-                FaultKind::AddForeign => Some(SigSpec {
+                FaultKind::AddForeign | FaultKind::InsertForeign(_) => Some(SigSpec {
                     name: format!("FOREIGN{fi}"),
                     bits: 1,
                     kind: SigKind::Out,
@@ -282,6 +284,11 @@ impl DutModel {
                 FaultKind::AddForeign => {
                     if let Some(x) = self.foreign_of(*fi) {
                         ans.push((SigId::Foreign(x), OutVal::Num(0)));
+                    }
+                }
+                FaultKind::InsertForeign(p) => {
+                    if let Some(x) = self.foreign_of(*fi) {
+                        ans.insert((*p).min(n), (SigId::Foreign(x), OutVal::Num(0)));
                     }
                 }
                 FaultKind::Dup(p) => {
@@ -603,6 +610,7 @@ impl FaultKind {
             FaultKind::Error => "error",
             FaultKind::Drop(_) => "drop",
             FaultKind::AddForeign => "add",
+            FaultKind::InsertForeign(_) => "insert",
             FaultKind::Dup(_) => "dup",
             FaultKind::Swap(..) => "swap",
             FaultKind::SubstName(_) => "substName",
@@ -616,6 +624,7 @@ impl FaultKind {
         match self {
             FaultKind::Error | FaultKind::AddForeign => {}
             FaultKind::Drop(p)
+            | FaultKind::InsertForeign(p)
             | FaultKind::Dup(p)
             | FaultKind::SubstName(p)
             | FaultKind::SubstBits(p)
@@ -641,6 +650,7 @@ impl FaultKind {
             "error" => FaultKind::Error,
             "add" => FaultKind::AddForeign,
             "drop" => FaultKind::Drop(p(1)?),
+            "insert" => FaultKind::InsertForeign(p(1)?),
             "dup" => FaultKind::Dup(p(1)?),
             "substName" => FaultKind::SubstName(p(1)?),
             "substBits" => FaultKind::SubstBits(p(1)?),
